@@ -41,6 +41,7 @@ type Rec struct {
 	Egress  int    `json:"egress"`
 	Ingress int    `json:"ingress"`
 	Prio    int    `json:"prio"` // ingressNetworkPolicyRulePriority (signed32; 0 = empty)
+	Cip     []int  `json:"cip"`  // destinationClusterIPv4 (four bytes; 0.0.0.0 = empty)
 	Lacking bool   `json:"lacking,omitempty"` // the record carries no flowEndReason element
 	Start   int    `json:"start"`
 	End     int    `json:"end"`
@@ -140,6 +141,7 @@ func BuildRecord(r Rec) entities.Record {
 		entities.NewUnsigned8InfoElement(ie("egressNetworkPolicyRuleAction", a), uint8(r.Egress)),
 		entities.NewUnsigned8InfoElement(ie("ingressNetworkPolicyRuleAction", a), uint8(r.Ingress)),
 		entities.NewSigned32InfoElement(ie("ingressNetworkPolicyRulePriority", a), int32(r.Prio)),
+		entities.NewIPAddressInfoElement(ie("destinationClusterIPv4", a), cipOf(r)),
 	)
 	return entities.NewDataRecordFromElements(256, elems, true)
 }
@@ -219,6 +221,19 @@ func u64(m map[string]interface{}, n string) int {
 	}
 	return -1
 }
+func cipOf(r Rec) net.IP {
+	if len(r.Cip) != 4 {
+		return net.IP{0, 0, 0, 0}
+	}
+	return net.IP{byte(r.Cip[0]), byte(r.Cip[1]), byte(r.Cip[2]), byte(r.Cip[3])}
+}
+func ip4(m map[string]interface{}, n string) []int {
+	if v, ok := m[n].(net.IP); ok && v.To4() != nil {
+		v4 := v.To4()
+		return []int{int(v4[0]), int(v4[1]), int(v4[2]), int(v4[3])}
+	}
+	return []int{-1, -1, -1, -1}
+}
 func s32(m map[string]interface{}, n string) int {
 	if v, ok := m[n].(int32); ok {
 		return int(v)
@@ -240,7 +255,7 @@ func (p *P) FlowProj(name string, f intermediate.VerifFlow) Ev {
 		// the flow is in the snapshot but GetRecords does not return exactly one record for its key: a record of the
 		// usual shape with impossible values (the trace spec then rejects it instead of tripping over a missing field)
 		neg := []int{-1, -1, -1, -1, -1, -1}
-		return vt.Ev{"k": name, "nrecs": len(recs), "sp": "?", "dp": "?", "sns": "?", "dns": "?", "ftype": -1, "egress": -1, "ingress": -1, "prio": -999,
+		return vt.Ev{"k": name, "nrecs": len(recs), "sp": "?", "dp": "?", "sns": "?", "dns": "?", "ftype": -1, "egress": -1, "ingress": -1, "prio": -999, "cip": []int{-1, -1, -1, -1},
 			"start": -1, "end": -1, "endS": -1, "endD": -1, "com": neg, "frS": neg, "frD": neg, "tp": []int{-1, -1}, "tpS": []int{-1, -1}, "tpD": []int{-1, -1},
 			"reason": -1, "ready": false, "retries": -1, "filled": false}
 	}
@@ -257,7 +272,7 @@ func (p *P) FlowProjOf(name string, m map[string]interface{}, ready, filled bool
 		return out
 	}
 	return Ev{"k": name, "sp": str(m, "sourcePodName"), "dp": str(m, "destinationPodName"), "sns": str(m, "sourcePodNamespace"), "dns": str(m, "destinationPodNamespace"),
-		"ftype": u64(m, "flowType"), "egress": u64(m, "egressNetworkPolicyRuleAction"), "ingress": u64(m, "ingressNetworkPolicyRuleAction"), "prio": s32(m, "ingressNetworkPolicyRulePriority"),
+		"ftype": u64(m, "flowType"), "egress": u64(m, "egressNetworkPolicyRuleAction"), "ingress": u64(m, "ingressNetworkPolicyRuleAction"), "prio": s32(m, "ingressNetworkPolicyRulePriority"), "cip": ip4(m, "destinationClusterIPv4"),
 		"start": u64(m, "flowStartSeconds"), "end": u64(m, "flowEndSeconds"), "endS": u64(m, "flowEndSecondsFromSourceNode"), "endD": u64(m, "flowEndSecondsFromDestinationNode"),
 		"com": vec(StatsElements), "frS": vec(srcStats), "frD": vec(dstStats), "tp": vec(tput), "tpS": vec(tputS), "tpD": vec(tputD),
 		"reason": u64(m, "flowEndReason"), "ready": ready, "retries": 0, "filled": filled}
